@@ -30,3 +30,702 @@ zv_harness! {
         forget(buf);
     }
 }
+
+// ---------------------------------------------------------------------------------------------
+// helpers (local to this module)
+use zipora::io::var_int::SignedVarInt;
+use zipora::io::var_int_variants::{VarIntEncoder, VarIntStrategy};
+use zipora::io::{DataInput, DataOutput, SliceDataInput, VecDataOutput};
+
+/// Unwrap a `Result<_, ZiporaError>` without ever running the drop glue of the error.
+fn must<T>(r: zipora::error::Result<T>, msg: &'static str) -> T {
+    match r {
+        Ok(v) => v,
+        Err(e) => {
+            forget(e);
+            panic!("{}", msg)
+        }
+    }
+}
+
+zv_harness! {
+    name: c13_varint_signed,
+    prop: "C13",
+    tier: quick,
+    unwind: 12,
+    stubs: [alloc::fmt::format => crate::common::stubs::fmt_format],
+    targets: "SignedVarInt for VarInt: encode_signed, decode_signed (zigzag + LEB128)",
+    bounds: "every i64 value; one symbolic trailing byte after the encoding; <= 10 LEB128 groups => unwind 12",
+    oracle: "decode_signed(encode_signed(v) ++ [any byte]) == (v, len(encode_signed(v)))",
+    body: {
+        let v: i64 = vany();
+        let mut buf = <VarInt as SignedVarInt>::encode_signed(v);
+        let n = buf.len();
+        assert!(n >= 1 && n <= 10);
+        buf.push(vany::<u8>());
+        let (d, c) = must(<VarInt as SignedVarInt>::decode_signed(&buf), "decode_signed refused a valid encoding");
+        assert!(d == v, "signed varint does not round-trip");
+        assert!(c == n, "signed varint consumed != produced");
+        zcover!(v == i64::MIN, "i64::MIN reached");
+        zcover!(n == 10 && v > 0, "ten-byte positive");
+        zcover!(n == 1 && v < 0, "one-byte negative");
+        forget(buf);
+    }
+}
+
+/// Value class "LEB128 encoding has exactly K bytes".
+const fn leb_lo(k: u32) -> u64 {
+    if k <= 1 { 0 } else { 1u64 << (7 * (k - 1)) }
+}
+const fn leb_hi(k: u32) -> u64 {
+    if k >= 10 { u64::MAX } else { (1u64 << (7 * k)) - 1 }
+}
+
+/// Value class "needs exactly W little-endian bytes" (W = 1 includes 0).
+const fn byte_lo(w: u32) -> u64 {
+    if w <= 1 { 0 } else { 1u64 << (8 * (w - 1)) }
+}
+const fn byte_hi(w: u32) -> u64 {
+    if w >= 8 { u64::MAX } else { (1u64 << (8 * w)) - 1 }
+}
+/// Signed values whose zigzag-LEB128 and signed-LEB128 forms have *at most* K bytes (contiguous range).
+const fn s_lo(k: u32) -> i64 {
+    if k >= 10 { i64::MIN } else { -(1i64 << (7 * k - 1)) }
+}
+const fn s_hi(k: u32) -> i64 {
+    if k >= 10 { i64::MAX } else { (1i64 << (7 * k - 1)) - 1 }
+}
+const fn ul(k: u32) -> (u64, u64) {
+    (leb_lo(k), leb_hi(k))
+}
+const fn ub(w: u32) -> (u64, u64) {
+    (byte_lo(w), byte_hi(w))
+}
+const fn sl(k: u32) -> (i64, i64) {
+    (s_lo(k), s_hi(k))
+}
+
+fn varint_concat2<const KA: usize>() {
+    let a: u64 = vany();
+    let b: u64 = vany();
+    assume(a >= leb_lo(KA as u32) && a <= leb_hi(KA as u32));
+    let ea = VarInt::encode(a);
+    let eb = VarInt::encode(b);
+    assert!(ea.len() == KA, "first value of the class does not take KA bytes");
+    let nb = eb.len();
+    assert!(nb >= 1 && nb <= 10);
+    // concatenation ea ++ eb ++ garbage, built at concrete positions
+    let mut arr = [0u8; 21];
+    let mut i = 0;
+    while i < KA {
+        arr[i] = ea[i];
+        i += 1;
+    }
+    let mut j = 0;
+    while j < 11 {
+        arr[KA + j] = if j < nb { eb[j] } else { vany::<u8>() };
+        j += 1;
+    }
+    let (da, ca) = must(VarInt::decode(&arr[..KA + 11]), "decode refused first value");
+    assert!(da == a && ca == KA, "first of two concatenated varints wrong");
+    // ca == KA was just asserted, so slicing at the constant is slicing at the reported offset
+    let (db, cb) = must(VarInt::decode(&arr[KA..KA + 11]), "decode refused second value");
+    assert!(db == b && cb == nb, "second of two concatenated varints wrong");
+    zcover!(nb == 10, "second value ten bytes");
+    zcover!(nb == 1, "second value one byte");
+    forget(ea);
+    forget(eb);
+}
+
+macro_rules! c13_varint_concat2 {
+    ($name:ident, $tier:ident, $unwind:literal, $ka:literal) => {
+        zv_harness! {
+            name: $name,
+            prop: "C13",
+            tier: $tier,
+            unwind: $unwind,
+            stubs: [alloc::fmt::format => crate::common::stubs::fmt_format],
+            targets: "VarInt::encode (write_to_vec) of two values, concatenated; VarInt::decode at offset 0 and at the reported offset",
+            bounds: "first value: every u64 whose LEB128 form has exactly KA bytes (instance); second value: every u64; followed by symbolic garbage bytes",
+            oracle: "buf = enc(a) ++ enc(b) ++ garbage: decode(buf) == (a, KA = len enc(a)); decode(buf[KA..]) == (b, len enc(b))",
+            body: { varint_concat2::<$ka>() }
+        }
+    };
+}
+c13_varint_concat2!(c13_varint_concat2_k1, quick, 12, 1);
+c13_varint_concat2!(c13_varint_concat2_k10, quick, 12, 10);
+
+/// Single-value round trip through `VarIntEncoder` (unsigned). A symbolic trailing byte is
+/// appended so that "bytes consumed" is checked against garbage following the value.
+fn vie_single_u64(s: VarIntStrategy, lo: u64, hi: u64) {
+    let enc = VarIntEncoder::new(s);
+    let v: u64 = vany();
+    assume(v >= lo && v <= hi);
+    let mut bytes = must(enc.encode_u64(v), "strategy refused a u64 it documents as supported");
+    let n = bytes.len();
+    bytes.push(vany::<u8>());
+    let (d, c) = must(enc.decode_u64(&bytes), "decode_u64 refused a valid encoding");
+    assert!(d == v, "u64 does not round-trip");
+    assert!(c == n, "bytes consumed != bytes produced");
+    zcover!(v == hi, "upper end of the value class");
+    zcover!(v == lo, "lower end of the value class");
+    forget(bytes);
+}
+
+fn vie_single_i64(s: VarIntStrategy, lo: i64, hi: i64) {
+    let enc = VarIntEncoder::new(s);
+    let v: i64 = vany();
+    assume(v >= lo && v <= hi);
+    let mut bytes = must(enc.encode_i64(v), "strategy refused an i64 it documents as supported");
+    let n = bytes.len();
+    bytes.push(vany::<u8>());
+    let (d, c) = must(enc.decode_i64(&bytes), "decode_i64 refused a valid encoding");
+    assert!(d == v, "i64 does not round-trip");
+    assert!(c == n, "bytes consumed != bytes produced");
+    zcover!(v == hi, "upper end of the value class");
+    zcover!(v == lo, "lower end of the value class");
+    forget(bytes);
+}
+
+macro_rules! c13_vie_u64 {
+    ($name:ident, $tier:ident, $unwind:literal, $strat:ident, $lo:expr, $hi:expr) => {
+        zv_harness! {
+            name: $name,
+            prop: "C13",
+            tier: $tier,
+            unwind: $unwind,
+            stubs: [alloc::fmt::format => crate::common::stubs::fmt_format],
+            targets: "VarIntEncoder::encode_u64 / decode_u64 for the strategy named by the instance",
+            bounds: "every u64 in the inclusive value class given by the instance, followed by one symbolic garbage byte",
+            oracle: "decode_u64(encode_u64(v) ++ [any]) == (v, len(encode_u64(v)))",
+            body: { vie_single_u64(VarIntStrategy::$strat, $lo, $hi) }
+        }
+    };
+}
+macro_rules! c13_vie_i64 {
+    ($name:ident, $tier:ident, $unwind:literal, $strat:ident, $lo:expr, $hi:expr) => {
+        zv_harness! {
+            name: $name,
+            prop: "C13",
+            tier: $tier,
+            unwind: $unwind,
+            stubs: [alloc::fmt::format => crate::common::stubs::fmt_format],
+            targets: "VarIntEncoder::encode_i64 / decode_i64 for the strategy named by the instance",
+            bounds: "every i64 in the inclusive value class given by the instance, followed by one symbolic garbage byte",
+            oracle: "decode_i64(encode_i64(v) ++ [any]) == (v, len(encode_i64(v)))",
+            body: { vie_single_i64(VarIntStrategy::$strat, $lo, $hi) }
+        }
+    };
+}
+
+c13_vie_u64!(c13_vie_leb128_u64, quick, 12, Leb128, 0, u64::MAX);
+c13_vie_i64!(c13_vie_leb128_i64, quick, 12, Leb128, i64::MIN, i64::MAX);
+c13_vie_i64!(c13_vie_zigzag_i64, quick, 12, Zigzag, i64::MIN, i64::MAX);
+c13_vie_u64!(c13_vie_group_u64, quick, 12, GroupVarint, 0, u64::MAX);
+c13_vie_i64!(c13_vie_group_i64, quick, 12, GroupVarint, i64::MIN, i64::MAX);
+c13_vie_u64!(c13_vie_compact_u64, thorough, 12, Compact, 0, u64::MAX);
+c13_vie_i64!(c13_vie_compact_i64, thorough, 12, Compact, i64::MIN, i64::MAX);
+c13_vie_u64!(c13_vie_simd_u64, thorough, 12, Simd, 0, u64::MAX);
+c13_vie_i64!(c13_vie_simd_i64, thorough, 12, Simd, i64::MIN, i64::MAX);
+c13_vie_u64!(c13_vie_prefixfree_u64_w8, quick, 12, PrefixFree, 1u64 << 56, u64::MAX);
+c13_vie_u64!(c13_vie_prefixfree_u64_all, thorough, 12, PrefixFree, 0, u64::MAX);
+
+// ---------------------------------------------------------------------------------------------
+// sequences of 0..2 values through every strategy. Each value is assumed into an inclusive value
+// class given by the instance (lo, hi), so that data-dependent byte widths stay (nearly) fixed.
+//
+// Cost note (measured): feeding the encoder's Vec straight into the sequence decoder leaves the
+// element count and the slice length symbolic for CBMC's symbolic execution (they are read back
+// through a memcpy / merged at function returns), so `Vec::with_capacity(count)` and
+// `for _ in 0..count` explode (> 9 GB / > 10 min even for the empty sequence). The harness
+// therefore restricts itself to inputs whose encoding has the shape given by the instance
+// (total length L, first byte == N; both are `assume`d, and the covers prove the restriction is
+// not vacuous), re-materialises the encoding in a stack buffer whose first byte is the literal N,
+// and decodes `&copy[..L]`, i.e. exactly the encoder's bytes.
+const SEQ_BUF: usize = 24;
+
+fn rematerialise<const N: usize, const L: usize>(bytes: &Vec<u8>) -> [u8; SEQ_BUF] {
+    assume(bytes.len() == L);
+    assume(bytes[0] == N as u8);
+    let mut copy = [0u8; SEQ_BUF];
+    copy[0] = N as u8;
+    // unrolled by hand: a loop here would force the harness-wide unwind bound up to 25
+    copy[1] = if 1 < L { bytes[1] } else { 0 };
+    copy[2] = if 2 < L { bytes[2] } else { 0 };
+    copy[3] = if 3 < L { bytes[3] } else { 0 };
+    copy[4] = if 4 < L { bytes[4] } else { 0 };
+    copy[5] = if 5 < L { bytes[5] } else { 0 };
+    copy[6] = if 6 < L { bytes[6] } else { 0 };
+    copy[7] = if 7 < L { bytes[7] } else { 0 };
+    copy[8] = if 8 < L { bytes[8] } else { 0 };
+    copy[9] = if 9 < L { bytes[9] } else { 0 };
+    copy[10] = if 10 < L { bytes[10] } else { 0 };
+    copy[11] = if 11 < L { bytes[11] } else { 0 };
+    copy[12] = if 12 < L { bytes[12] } else { 0 };
+    copy[13] = if 13 < L { bytes[13] } else { 0 };
+    copy[14] = if 14 < L { bytes[14] } else { 0 };
+    copy[15] = if 15 < L { bytes[15] } else { 0 };
+    copy[16] = if 16 < L { bytes[16] } else { 0 };
+    copy[17] = if 17 < L { bytes[17] } else { 0 };
+    copy[18] = if 18 < L { bytes[18] } else { 0 };
+    copy[19] = if 19 < L { bytes[19] } else { 0 };
+    copy[20] = if 20 < L { bytes[20] } else { 0 };
+    copy[21] = if 21 < L { bytes[21] } else { 0 };
+    copy[22] = if 22 < L { bytes[22] } else { 0 };
+    copy[23] = if 23 < L { bytes[23] } else { 0 };
+    copy
+}
+
+fn vie_seq_u64<const N: usize, const L: usize>(s: VarIntStrategy, cls: [(u64, u64); N]) {
+    let enc = VarIntEncoder::new(s);
+    // backing array of fixed non-zero size: a zero-sized `[u64; 0]` makes the slice pointer opaque to CBMC
+    let mut vals = [0u64; 5];
+    let mut i = 0;
+    while i < N {
+        vals[i] = vany();
+        assume(vals[i] >= cls[i].0 && vals[i] <= cls[i].1);
+        i += 1;
+    }
+    let bytes = must(enc.encode_u64_sequence(&vals[..N]), "strategy refused a u64 sequence it documents as supported");
+    let copy = rematerialise::<N, L>(&bytes);
+    let out = must(enc.decode_u64_sequence(&copy[..L]), "decode_u64_sequence refused a valid encoding");
+    assert!(out.len() == N, "decoded sequence has a different length");
+    let mut i = 0;
+    while i < N {
+        assert!(out[i] == vals[i], "u64 sequence element does not round-trip");
+        i += 1;
+    }
+    // (no cover inside an `if N > 0` branch: a monomorphised dead branch would report it unsatisfiable)
+    let last = if N > 0 { N - 1 } else { 0 };
+    let (lo_first, hi_last) = if N > 0 { (cls[0].0, cls[last].1) } else { (0, 0) };
+    zcover!(N == 0 || vals[last] == hi_last, "upper end of the last value class (or empty sequence) with the expected shape");
+    zcover!(N == 0 || vals[0] == lo_first, "lower end of the first value class (or empty sequence) with the expected shape");
+    forget(bytes);
+    forget(out);
+}
+
+fn vie_seq_i64<const N: usize, const L: usize>(s: VarIntStrategy, cls: [(i64, i64); N]) {
+    let enc = VarIntEncoder::new(s);
+    let mut vals = [0i64; 5];
+    let mut i = 0;
+    while i < N {
+        vals[i] = vany();
+        assume(vals[i] >= cls[i].0 && vals[i] <= cls[i].1);
+        i += 1;
+    }
+    let bytes = must(enc.encode_i64_sequence(&vals[..N]), "strategy refused an i64 sequence it documents as supported");
+    let copy = rematerialise::<N, L>(&bytes);
+    let out = must(enc.decode_i64_sequence(&copy[..L]), "decode_i64_sequence refused a valid encoding");
+    assert!(out.len() == N, "decoded sequence has a different length");
+    let mut i = 0;
+    while i < N {
+        assert!(out[i] == vals[i], "i64 sequence element does not round-trip");
+        i += 1;
+    }
+    // (no cover inside an `if N > 0` branch: a monomorphised dead branch would report it unsatisfiable)
+    let last = if N > 0 { N - 1 } else { 0 };
+    let (lo_first, hi_last) = if N > 0 { (cls[0].0, cls[last].1) } else { (0, 0) };
+    zcover!(N == 0 || vals[last] == hi_last, "upper end of the last value class (or empty sequence) with the expected shape");
+    zcover!(N == 0 || vals[0] == lo_first, "lower end of the first value class (or empty sequence) with the expected shape");
+    forget(bytes);
+    forget(out);
+}
+
+macro_rules! c13_vie_seq_u64 {
+    ($name:ident, $tier:ident, $unwind:literal, $strat:ident, $n:literal, $l:literal, [$($cls:expr),*]) => {
+        zv_harness! {
+            name: $name,
+            prop: "C13",
+            tier: $tier,
+            unwind: $unwind,
+            stubs: [alloc::fmt::format => crate::common::stubs::fmt_format],
+            targets: "VarIntEncoder::encode_u64_sequence / decode_u64_sequence for the strategy named by the instance",
+            bounds: "instance = strategy, N, L, classes: sequence of concrete length N; element i ranges over every u64 in the inclusive class (lo_i, hi_i); restricted (assume) to inputs whose encoding has exactly L bytes and starts with the byte N",
+            oracle: "decode_u64_sequence(encode_u64_sequence(vals)) == vals (same length, element-wise equal)",
+            body: { vie_seq_u64::<$n, $l>(VarIntStrategy::$strat, [$($cls),*]) }
+        }
+    };
+}
+macro_rules! c13_vie_seq_i64 {
+    ($name:ident, $tier:ident, $unwind:literal, $strat:ident, $n:literal, $l:literal, [$($cls:expr),*]) => {
+        zv_harness! {
+            name: $name,
+            prop: "C13",
+            tier: $tier,
+            unwind: $unwind,
+            stubs: [alloc::fmt::format => crate::common::stubs::fmt_format],
+            targets: "VarIntEncoder::encode_i64_sequence / decode_i64_sequence for the strategy named by the instance",
+            bounds: "instance = strategy, N, L, classes: sequence of concrete length N; element i ranges over every i64 in the inclusive class (lo_i, hi_i); restricted (assume) to inputs whose encoding has exactly L bytes and starts with the byte N",
+            oracle: "decode_i64_sequence(encode_i64_sequence(vals)) == vals (same length, element-wise equal)",
+            body: { vie_seq_i64::<$n, $l>(VarIntStrategy::$strat, [$($cls),*]) }
+        }
+    };
+}
+
+c13_vie_seq_u64!(c13_vie_leb128_seq_u64_n0, quick, 12, Leb128, 0, 1, []);
+c13_vie_seq_u64!(c13_vie_leb128_seq_u64_n1_w1, thorough, 12, Leb128, 1, 2, [ul(1)]);
+c13_vie_seq_u64!(c13_vie_leb128_seq_u64_n1_w10, quick, 12, Leb128, 1, 11, [ul(10)]);
+c13_vie_seq_u64!(c13_vie_leb128_seq_u64_n2_w1_w10, quick, 12, Leb128, 2, 12, [ul(1), ul(10)]);
+c13_vie_seq_u64!(c13_vie_leb128_seq_u64_n2_w5_w3, thorough, 12, Leb128, 2, 9, [ul(5), ul(3)]);
+c13_vie_seq_u64!(c13_vie_leb128_seq_u64_n2_w10_w10, thorough, 12, Leb128, 2, 21, [ul(10), ul(10)]);
+c13_vie_seq_i64!(c13_vie_leb128_seq_i64_n0, thorough, 12, Leb128, 0, 1, []);
+c13_vie_seq_i64!(c13_vie_leb128_seq_i64_n1_k10, quick, 12, Leb128, 1, 11, [sl(10)]);
+c13_vie_seq_i64!(c13_vie_leb128_seq_i64_n2_k1_k10, thorough, 12, Leb128, 2, 12, [sl(1), sl(10)]);
+c13_vie_seq_i64!(c13_vie_leb128_seq_i64_n2_k10_k2, thorough, 12, Leb128, 2, 13, [sl(10), sl(2)]);
+c13_vie_seq_i64!(c13_vie_zigzag_seq_i64_n0, thorough, 12, Zigzag, 0, 1, []);
+c13_vie_seq_i64!(c13_vie_zigzag_seq_i64_n1_k10, quick, 12, Zigzag, 1, 11, [sl(10)]);
+c13_vie_seq_i64!(c13_vie_zigzag_seq_i64_n2_k1_k10, thorough, 12, Zigzag, 2, 12, [sl(1), sl(10)]);
+c13_vie_seq_i64!(c13_vie_zigzag_seq_i64_n2_k10_k2, thorough, 12, Zigzag, 2, 13, [sl(10), sl(2)]);
+c13_vie_seq_u64!(c13_vie_delta_seq_u64_n0, thorough, 12, Delta, 0, 1, []);
+c13_vie_seq_u64!(c13_vie_delta_seq_u64_n1_w10, thorough, 12, Delta, 1, 11, [ul(10)]);
+c13_vie_seq_u64!(c13_vie_delta_seq_u64_n2_w2_w2, quick, 12, Delta, 2, 5, [ul(2), ul(2)]);
+c13_vie_seq_u64!(c13_vie_delta_seq_u64_n2_mid_down, thorough, 12, Delta, 2, 19, [(1u64 << 56, (1u64 << 62) - 1), ul(1)]);
+c13_vie_seq_u64!(c13_vie_delta_seq_u64_n2_up_big, quick, 12, Delta, 2, 12, [ul(1), (1u64 << 63, u64::MAX)]);
+c13_vie_seq_u64!(c13_vie_delta_seq_u64_n2_down_big, thorough, 12, Delta, 2, 21, [(1u64 << 63, u64::MAX), ul(1)]);
+c13_vie_seq_u64!(c13_vie_delta_seq_u64_n2_any_l21, thorough, 12, Delta, 2, 21, [(0, u64::MAX), (0, u64::MAX)]);
+c13_vie_seq_i64!(c13_vie_delta_seq_i64_n0, thorough, 12, Delta, 0, 1, []);
+c13_vie_seq_i64!(c13_vie_delta_seq_i64_n1_k10, thorough, 12, Delta, 1, 11, [sl(10)]);
+c13_vie_seq_i64!(c13_vie_delta_seq_i64_n2_k1_k1, quick, 12, Delta, 2, 4, [sl(1), sl(1)]);
+c13_vie_seq_i64!(c13_vie_delta_seq_i64_n2_wide_ok, thorough, 12, Delta, 2, 20, [(-(1i64 << 62), -(1i64 << 61)), (1i64 << 61, (1i64 << 62) - 1)]);
+c13_vie_seq_i64!(c13_vie_delta_seq_i64_n2_overflow, quick, 12, Delta, 2, 21, [(i64::MIN, i64::MIN + 100), (0, 127)]);
+c13_vie_seq_u64!(c13_vie_group_seq_u64_n0, thorough, 12, GroupVarint, 0, 1, []);
+c13_vie_seq_u64!(c13_vie_group_seq_u64_n1_w1, thorough, 12, GroupVarint, 1, 3, [ub(1)]);
+c13_vie_seq_u64!(c13_vie_group_seq_u64_n1_w4, quick, 12, GroupVarint, 1, 6, [ub(4)]);
+c13_vie_seq_u64!(c13_vie_group_seq_u64_n1_w5, quick, 12, GroupVarint, 1, 7, [ub(5)]);
+c13_vie_seq_u64!(c13_vie_group_seq_u64_n1_w8, thorough, 12, GroupVarint, 1, 10, [ub(8)]);
+c13_vie_seq_u64!(c13_vie_group_seq_u64_n2_w4_w4, thorough, 12, GroupVarint, 2, 10, [ub(4), ub(4)]);
+c13_vie_seq_u64!(c13_vie_group_seq_u64_n2_w1_w8, thorough, 12, GroupVarint, 2, 11, [ub(1), ub(8)]);
+c13_vie_seq_u64!(c13_vie_group_seq_u64_n4_w1_w2_w3_w4, thorough, 12, GroupVarint, 4, 12, [ub(1), ub(2), ub(3), ub(4)]);
+c13_vie_seq_u64!(c13_vie_group_seq_u64_n5_w1, quick, 12, GroupVarint, 5, 8, [ub(1), ub(1), ub(1), ub(1), ub(1)]);
+c13_vie_seq_i64!(c13_vie_group_seq_i64_n1_pos_w4, thorough, 12, GroupVarint, 1, 6, [(1i64 << 24, (1i64 << 32) - 1)]);
+c13_vie_seq_i64!(c13_vie_group_seq_i64_n1_neg, thorough, 12, GroupVarint, 1, 10, [(i64::MIN, -1)]);
+c13_vie_seq_u64!(c13_vie_prefixfree_seq_u64_n0, thorough, 12, PrefixFree, 0, 1, []);
+c13_vie_seq_u64!(c13_vie_prefixfree_seq_u64_n1_w8, quick, 12, PrefixFree, 1, 10, [ub(8)]);
+c13_vie_seq_u64!(c13_vie_prefixfree_seq_u64_n2_w1_w8, thorough, 12, PrefixFree, 2, 12, [ub(1), ub(8)]);
+c13_vie_seq_u64!(c13_vie_prefixfree_seq_u64_n2_w8_w8, thorough, 12, PrefixFree, 2, 19, [ub(8), ub(8)]);
+c13_vie_seq_i64!(c13_vie_prefixfree_seq_i64_n1_l10, thorough, 12, PrefixFree, 1, 10, [sl(10)]);
+c13_vie_seq_i64!(c13_vie_prefixfree_seq_i64_n2_l12, thorough, 12, PrefixFree, 2, 12, [sl(1), sl(10)]);
+c13_vie_seq_u64!(c13_vie_compact_seq_u64_n2_w1_w10, thorough, 12, Compact, 2, 12, [ul(1), ul(10)]);
+c13_vie_seq_i64!(c13_vie_compact_seq_i64_n2_k1_k10, thorough, 12, Compact, 2, 12, [sl(1), sl(10)]);
+c13_vie_seq_u64!(c13_vie_simd_seq_u64_n2_w1_w10, thorough, 12, Simd, 2, 12, [ul(1), ul(10)]);
+c13_vie_seq_i64!(c13_vie_simd_seq_i64_n2_k1_k10, thorough, 12, Simd, 2, 12, [sl(1), sl(10)]);
+
+// ---------------------------------------------------------------------------------------------
+// data input / output primitives over in-memory buffers
+zv_harness! {
+    name: c13_dataio_fixed,
+    prop: "C13",
+    tier: quick,
+    unwind: 12,
+    stubs: [alloc::fmt::format => crate::common::stubs::fmt_format],
+    targets: "VecDataOutput::write_u8/u16/u32/u64, SliceDataInput::read_u8/u16/u32/u64, position, has_remaining, bytes_written",
+    bounds: "every (u8, u16, u32, u64) quadruple written back to back, then read back in order",
+    oracle: "values read == values written; 15 bytes produced; reader position after each read == bytes produced so far; little-endian layout of the u32; reading past the end is an Err",
+    body: {
+        let a: u8 = vany();
+        let b: u16 = vany();
+        let c: u32 = vany();
+        let d: u64 = vany();
+        let mut out = VecDataOutput::with_capacity(32);
+        must(out.write_u8(a), "write_u8");
+        must(out.write_u16(b), "write_u16");
+        must(out.write_u32(c), "write_u32");
+        must(out.write_u64(d), "write_u64");
+        assert!(out.len() == 15);
+        assert!(out.bytes_written() == Some(15));
+        let bytes = out.into_vec();
+        assert!(bytes[3] == (c & 0xff) as u8 && bytes[6] == (c >> 24) as u8, "u32 is not little-endian");
+        let mut inp = SliceDataInput::new(&bytes);
+        let ra = must(inp.read_u8(), "read_u8");
+        assert!(ra == a && inp.pos() == 1);
+        let rb = must(inp.read_u16(), "read_u16");
+        assert!(rb == b && inp.pos() == 3);
+        let rc = must(inp.read_u32(), "read_u32");
+        assert!(rc == c && inp.pos() == 7);
+        let rd = must(inp.read_u64(), "read_u64");
+        assert!(rd == d && inp.pos() == 15);
+        assert!(inp.has_remaining() == Some(false) && inp.remaining() == 0);
+        let e = inp.read_u8();
+        assert!(e.is_err(), "read past the end must be an error");
+        forget(e);
+        zcover!(d == u64::MAX && a == 0, "extreme values");
+        forget(bytes);
+    }
+}
+
+zv_harness! {
+    name: c13_dataio_varint,
+    prop: "C13",
+    tier: quick,
+    unwind: 12,
+    stubs: [alloc::fmt::format => crate::common::stubs::fmt_format],
+    targets: "VecDataOutput::write_var_int (VarInt::write_to over io::Write), write_u8; SliceDataInput::read_var_int (VarInt::read_from), read_u8, pos",
+    bounds: "every u64 written as var int followed by one symbolic byte",
+    oracle: "read_var_int == v; reader position == VarInt::encoded_len(v) == bytes produced by write_var_int; the following byte is read back unchanged",
+    body: {
+        let v: u64 = vany();
+        let t: u8 = vany();
+        let mut out = VecDataOutput::with_capacity(16);
+        must(out.write_var_int(v), "write_var_int");
+        let n = out.len();
+        assert!(n == VarInt::encoded_len(v));
+        must(out.write_u8(t), "write_u8");
+        let bytes = out.into_vec();
+        let mut inp = SliceDataInput::new(&bytes);
+        let rv = must(inp.read_var_int(), "read_var_int refused a valid encoding");
+        assert!(rv == v, "var int does not round-trip through DataOutput/DataInput");
+        assert!(inp.pos() == n, "read_var_int consumed != write_var_int produced");
+        let rt = must(inp.read_u8(), "read_u8");
+        assert!(rt == t);
+        zcover!(n == 10, "ten-byte var int");
+        zcover!(n == 1, "one-byte var int");
+        forget(bytes);
+    }
+}
+
+fn dataio_lenprefixed<const K: usize>() {
+    let payload: [u8; K] = vany();
+    let t: u8 = vany();
+    let mut out = VecDataOutput::with_capacity(16);
+    must(out.write_length_prefixed_bytes(&payload), "write_length_prefixed_bytes");
+    assert!(out.len() == K + 1, "length prefix of a short payload is one byte");
+    must(out.write_u8(t), "write_u8");
+    let bytes = out.into_vec();
+    let mut inp = SliceDataInput::new(&bytes);
+    let got = must(inp.read_length_prefixed_bytes(), "read_length_prefixed_bytes refused a valid encoding");
+    assert!(got.len() == K, "payload length changed");
+    let mut i = 0;
+    while i < K {
+        assert!(got[i] == payload[i], "payload byte changed");
+        i += 1;
+    }
+    assert!(inp.pos() == K + 1, "consumed != produced");
+    let rt = must(inp.read_u8(), "read_u8");
+    assert!(rt == t);
+    zcover!(rt == 0xff, "trailing byte read back");
+    forget(got);
+    forget(bytes);
+}
+
+fn dataio_lenprefixed_str<const K: usize>() {
+    let raw: [u8; K] = vany();
+    let mut i = 0;
+    while i < K {
+        assume(raw[i] < 0x80);
+        i += 1;
+    }
+    let s = unsafe { core::str::from_utf8_unchecked(&raw) };
+    let mut out = VecDataOutput::with_capacity(16);
+    must(out.write_length_prefixed_string(s), "write_length_prefixed_string");
+    let n = out.len();
+    let bytes = out.into_vec();
+    let mut inp = SliceDataInput::new(&bytes);
+    let got = must(inp.read_length_prefixed_string(), "read_length_prefixed_string refused a valid encoding");
+    let gb = got.as_bytes();
+    assert!(gb.len() == K, "string length changed");
+    let mut i = 0;
+    while i < K {
+        assert!(gb[i] == raw[i], "string byte changed");
+        i += 1;
+    }
+    assert!(inp.pos() == n && n == K + 1, "consumed != produced");
+    zcover!(K == 0 || raw[0] == b'z', "string content free");
+    forget(got);
+    forget(bytes);
+}
+
+macro_rules! c13_dataio_bytes {
+    ($name:ident, $tier:ident, $unwind:literal, $k:literal) => {
+        zv_harness! {
+            name: $name,
+            prop: "C13",
+            tier: $tier,
+            unwind: $unwind,
+            stubs: [alloc::fmt::format => crate::common::stubs::fmt_format],
+            targets: "DataOutput::write_length_prefixed_bytes (VecDataOutput), DataInput::read_length_prefixed_bytes / read_vec / read_bytes (SliceDataInput)",
+            bounds: "every byte array of the concrete length K given by the instance, followed by one symbolic byte",
+            oracle: "bytes read back == bytes written; reader position == bytes produced (K + 1); the following byte is read back unchanged",
+            body: { dataio_lenprefixed::<$k>() }
+        }
+    };
+}
+macro_rules! c13_dataio_str {
+    ($name:ident, $tier:ident, $unwind:literal, $k:literal) => {
+        zv_harness! {
+            name: $name,
+            prop: "C13",
+            tier: $tier,
+            unwind: $unwind,
+            stubs: [alloc::fmt::format => crate::common::stubs::fmt_format],
+            targets: "DataOutput::write_length_prefixed_string (VecDataOutput), DataInput::read_length_prefixed_string (SliceDataInput)",
+            bounds: "every ASCII string (bytes < 0x80) of the concrete length K given by the instance",
+            oracle: "string read back == string written; reader position == bytes produced (K + 1)",
+            body: { dataio_lenprefixed_str::<$k>() }
+        }
+    };
+}
+c13_dataio_bytes!(c13_dataio_bytes_k0, quick, 12, 0);
+c13_dataio_bytes!(c13_dataio_bytes_k3, quick, 12, 3);
+c13_dataio_str!(c13_dataio_str_k0, thorough, 12, 0);
+c13_dataio_str!(c13_dataio_str_k3, quick, 12, 3);
+
+// ---------------------------------------------------------------------------------------------
+// endian conversion
+use zipora::io::endian::{EndianConvert, EndianIO, Endianness};
+
+fn sym_endianness() -> Endianness {
+    let k: u8 = vany();
+    assume(k < 3);
+    match k {
+        0 => Endianness::Little,
+        1 => Endianness::Big,
+        _ => Endianness::Native,
+    }
+}
+
+zv_harness! {
+    name: c13_endian_u16_u32_u64,
+    prop: "C13",
+    tier: quick,
+    unwind: 12,
+    stubs: [alloc::fmt::format => crate::common::stubs::fmt_format],
+    targets: "EndianConvert::{to_endian, from_endian, to_le, to_be, from_le, from_be} for u16/u32/u64/i64; EndianIO::{write_to_bytes, read_from_bytes, convert_slice_to_endian, convert_slice_from_endian}",
+    bounds: "every u16, u32, u64, i64 value; every Endianness (Little, Big, Native; symbolic choice); x86-64 (little-endian) host",
+    oracle: "from_endian(to_endian(v)) == v; to_be is a byte swap (involution) and to_le the identity on this host; bytes written by write_to_bytes are v.to_le_bytes()/to_be_bytes(); read_from_bytes(write_to_bytes(v)) == v; too-short buffers are an Err; slice conversion round-trips",
+    body: {
+        let e = sym_endianness();
+        let a: u16 = vany();
+        let b: u32 = vany();
+        let c: u64 = vany();
+        let d: i64 = vany();
+        assert!(a.to_endian(e).from_endian(e) == a);
+        assert!(b.to_endian(e).from_endian(e) == b);
+        assert!(c.to_endian(e).from_endian(e) == c);
+        assert!(d.to_endian(e).from_endian(e) == d);
+        assert!(EndianConvert::to_be(EndianConvert::to_be(c)) == c && EndianConvert::to_le(c) == c);
+        assert!(EndianConvert::from_be(b) == b.swap_bytes() && EndianConvert::from_le(a) == a);
+        // u32 through a byte buffer
+        let io32 = EndianIO::<u32>::new(e);
+        let mut buf = [0u8; 4];
+        must(io32.write_to_bytes(b, &mut buf), "write_to_bytes refused a 4-byte buffer");
+        let want = match e {
+            Endianness::Big => b.to_be_bytes(),
+            _ => b.to_le_bytes(),
+        };
+        assert!(buf[0] == want[0] && buf[1] == want[1] && buf[2] == want[2] && buf[3] == want[3], "byte order of write_to_bytes");
+        let rb = must(io32.read_from_bytes(&buf), "read_from_bytes refused 4 bytes");
+        assert!(rb == b);
+        let short = io32.read_from_bytes(&buf[..3]);
+        assert!(short.is_err(), "3 bytes cannot hold a u32");
+        forget(short);
+        // u64 through a byte buffer with trailing bytes
+        let io64 = EndianIO::<u64>::new(e);
+        let mut buf9 = [0u8; 9];
+        buf9[8] = vany();
+        must(io64.write_to_bytes(c, &mut buf9), "write_to_bytes refused a 9-byte buffer");
+        let rc = must(io64.read_from_bytes(&buf9), "read_from_bytes refused 9 bytes");
+        assert!(rc == c);
+        // slices
+        let io16 = EndianIO::<u16>::new(e);
+        let mut arr = [a, a.wrapping_add(1)];
+        io16.convert_slice_to_endian(&mut arr);
+        assert!(arr[0] == a.to_endian(e));
+        io16.convert_slice_from_endian(&mut arr);
+        assert!(arr[0] == a && arr[1] == a.wrapping_add(1));
+        zcover!(matches!(e, Endianness::Big) && b == 0x0102_0304, "big endian with a non-palindromic value");
+        zcover!(matches!(e, Endianness::Native), "native");
+    }
+}
+
+// ---------------------------------------------------------------------------------------------
+// tuples / Option / Vec<u8> (ComplexSerialize, SerializableType)
+use zipora::io::complex_types::ComplexSerialize;
+use zipora::io::smart_ptr::SerializableType;
+
+zv_harness! {
+    name: c13_complex_tuple_option,
+    prop: "C13",
+    tier: quick,
+    unwind: 12,
+    stubs: [alloc::fmt::format => crate::common::stubs::fmt_format],
+    targets: "ComplexSerialize::{serialize_data, deserialize_with_version} for (u8, u32) and Option<u16>, written back to back into one VecDataOutput",
+    bounds: "every (u8, u32) tuple followed by every Option<u16> (None / Some(any)) followed by one symbolic byte",
+    oracle: "values read back in order are equal; reader position after each value == bytes produced for it (5, then 1 or 3); an Option marker other than 0/1 is never produced",
+    body: {
+        let t: (u8, u32) = (vany(), vany());
+        let some: bool = vany();
+        let o: Option<u16> = if some { Some(vany()) } else { None };
+        let g: u8 = vany();
+        let mut out = VecDataOutput::with_capacity(16);
+        must(t.serialize_data(&mut out), "tuple serialize_data");
+        let n1 = out.len();
+        assert!(n1 == 5);
+        must(o.serialize_data(&mut out), "option serialize_data");
+        let n2 = out.len();
+        assert!(n2 == n1 + if some { 3 } else { 1 });
+        must(out.write_u8(g), "write_u8");
+        let bytes = out.into_vec();
+        let mut inp = SliceDataInput::new(&bytes);
+        let rt = must(<(u8, u32) as ComplexSerialize>::deserialize_with_version(&mut inp, 1), "tuple deserialize");
+        assert!(rt.0 == t.0 && rt.1 == t.1, "tuple does not round-trip");
+        assert!(inp.pos() == n1, "tuple consumed != produced");
+        let ro = must(<Option<u16> as ComplexSerialize>::deserialize_with_version(&mut inp, 1), "option deserialize");
+        assert!(ro == o, "Option does not round-trip");
+        assert!(inp.pos() == n2, "Option consumed != produced");
+        let rg = must(inp.read_u8(), "read_u8");
+        assert!(rg == g);
+        zcover!(some && o == Some(0xffff), "Some(max)");
+        zcover!(!some, "None");
+        forget(bytes);
+    }
+}
+
+fn complex_vec_u8<const K: usize>() {
+    let raw: [u8; K] = vany();
+    let mut v: Vec<u8> = Vec::with_capacity(4);
+    let mut i = 0;
+    while i < K {
+        v.push(raw[i]);
+        i += 1;
+    }
+    let g: u8 = vany();
+    let mut out = VecDataOutput::with_capacity(16);
+    must(<Vec<u8> as SerializableType>::serialize(&v, &mut out), "Vec<u8> serialize");
+    let n = out.len();
+    assert!(n == 4 + K, "u32 count + elements");
+    must(out.write_u8(g), "write_u8");
+    let bytes = out.into_vec();
+    let mut inp = SliceDataInput::new(&bytes);
+    let got = must(<Vec<u8> as SerializableType>::deserialize(&mut inp), "Vec<u8> deserialize refused a valid encoding");
+    assert!(got.len() == K, "Vec length changed");
+    let mut i = 0;
+    while i < K {
+        assert!(got[i] == raw[i], "Vec element changed");
+        i += 1;
+    }
+    assert!(inp.pos() == n, "Vec consumed != produced");
+    let rg = must(inp.read_u8(), "read_u8");
+    assert!(rg == g);
+    zcover!(rg == 7, "trailing byte read back");
+    forget(got);
+    forget(v);
+    forget(bytes);
+}
+
+macro_rules! c13_complex_vec {
+    ($name:ident, $tier:ident, $unwind:literal, $k:literal) => {
+        zv_harness! {
+            name: $name,
+            prop: "C13",
+            tier: $tier,
+            unwind: $unwind,
+            stubs: [alloc::fmt::format => crate::common::stubs::fmt_format],
+            targets: "SerializableType for Vec<u8>: serialize (u32 count + elements) / deserialize, over VecDataOutput / SliceDataInput",
+            bounds: "every Vec<u8> of the concrete length K given by the instance (K <= 2), followed by one symbolic byte",
+            oracle: "Vec read back == Vec written; reader position == bytes produced (4 + K); the following byte is read back unchanged",
+            body: { complex_vec_u8::<$k>() }
+        }
+    };
+}
+c13_complex_vec!(c13_complex_vec_k0, thorough, 12, 0);
+c13_complex_vec!(c13_complex_vec_k2, quick, 12, 2);
